@@ -188,7 +188,28 @@ pub fn c06_case(ctx: &mut Ctx, tape: &[u8]) -> CaseResult {
     };
     let tx = match &o.tx {
         Some(t) => t,
-        None => return Ok(()),
+        None => {
+            // build_tx() refused. When balancing reported success and the caller did not fix the fee, the fee in the
+            // builder is the one the builder set: it must still cover the transaction build_tx_unsafe() hands out
+            // (a refusal "Fee is less than the minimum fee" here means the builder set too little itself).
+            if let (true, Some(t)) = (o.balancing_ok && !matches!(o.fee_request, FeeRequest::Exactly(_)), &o.tx_unsafe) {
+                let bytes = t.to_bytes();
+                if let Ok(view) = TxView::parse(&bytes) {
+                    let fee = fee_of(view.body());
+                    if let Ok((size, n_keys, n_boot)) = signed_size(&view, &o) {
+                        let min = min_fee(&view, size, &o);
+                        ctx.label("refused-by-build_tx:fee-set-by-builder-checked");
+                        ensure!(
+                            NBig::from(fee) >= min,
+                            "fee/set-by-balancing-below-ledger-minimum",
+                            "balancing ({}) reported success and set fee {}, but the ledger minimum is {} for the transaction of {} bytes once signed by {} keys and {} bootstrap witnesses (build_tx: {:?}); {}",
+                            o.balancing, fee, min, size, n_keys, n_boot, o.tx_error, describe(&o)
+                        );
+                    }
+                }
+            }
+            return Ok(());
+        }
     };
     let bytes = tx.to_bytes();
     let view = TxView::parse(&bytes).map_err(|e| Failure::new("fee/tx-unreadable", format!("{} {}", e, describe(&o))))?;
@@ -534,6 +555,20 @@ pub fn c18_case(ctx: &mut Ctx, tape: &[u8]) -> CaseResult {
         if it.plutus {
             let n = reds.iter().filter(|r| r.2 == it.marker).count();
             ensure!(n == 1, format!("witness/redeemer-count/{}", purpose_name(&it.purpose)), "the {} item has {} redeemers; {}", purpose_name(&it.purpose), n, describe(&o));
+            // ... and it is the item's redeemer in the ledger's sense: exactly one redeemer's pointer designates the item
+            let tag = purpose_tag(&it.purpose);
+            let n_ptr = reds.iter().filter(|r| r.0 == tag && resolve(&view, r.0, r.1).contains(&it.target)).count();
+            if n_ptr != 1 {
+                // reward redeemers indexed by insertion position are C10's known finding, not a C18 matter
+                let own_index = reds.iter().find(|r| r.2 == it.marker).map(|r| r.1).unwrap_or(u64::MAX);
+                let reward_insertion_order = tag == 3
+                    && view.body().map_get(5).and_then(|n| n.as_map()).and_then(|m| m.get(own_index as usize)).and_then(|(k, _)| k.as_bytes()).map(|b| b == &it.target[..]).unwrap_or(false);
+                if reward_insertion_order {
+                    ctx.label("c18:reward-pointer-by-insertion-position(C10 finding)");
+                } else {
+                    fail!(format!("witness/redeemer-pointer-count/{}", purpose_name(&it.purpose)), "{} redeemers point at the {} item {} (its own redeemer sits at index {}); {}", n_ptr, purpose_name(&it.purpose), hex::encode(&it.target[..it.target.len().min(40)]), own_index, describe(&o));
+                }
+            }
             if let Some(d) = &it.witness_datum {
                 let c = datum_slices.iter().filter(|x| *x == d).count();
                 ensure!(c == 1, "witness/datum-count", "datum {} occurs {} times in the witness set (1 expected); {}", hex::encode(&d[..d.len().min(40)]), c, describe(&o));
